@@ -96,7 +96,7 @@ def run(case):
         if any(b < 0 for b in allb):
             out.bad(sub + "/benefit-negative", tag)
         bmax = max([0.0] + allb)
-        thr = bmax * sa.margin
+        thr = bmax * float(case["margin"])        # the margin the user asked for, not an attribute read back from the object
         nsel = 0
         for d in range(sa.dim):
             old_pts = [snap[d][0][0]] + [x[1] for x in snap[d]]
@@ -115,7 +115,7 @@ def run(case):
                 cause = "selected-interval-not-split" if missing and not extra else (
                     "unselected-interval-split" if extra and not missing else "wrong-split-points")
                 out.bad(sub + "/selection/" + cause, "%s dim %d margin=%s max=%r thr=%r missing=%s extra=%s" % (
-                    tag, d, sa.margin, bmax, thr, missing[:4], extra[:4]))
+                    tag, d, case["margin"], bmax, thr, missing[:4], extra[:4]))
             elif not sa.rebalancing:
                 lv_new = dict(zip(got, drive.dw_levels(sa, d)))
                 lv_old = dict(zip(old_pts, [snap[d][0][2][0]] + [x[2][1] for x in snap[d]]))
